@@ -107,14 +107,17 @@ def make_tasks():
                 # the usual idiom: __cause__ set), or raised while handling one (__context__ only); the progress attached to
                 # the TransientError must survive in all three
                 style = (n + len(w["spec"]["script"])) % 3
+                # ... and so is the documented `retry_after` hint (a rate-limited service): it may delay the retry, it must not
+                # exempt the failure from the retry budget; chains 2, 5, 8.. use it on every failure, the others on every third
+                hint = {"retry_after": 0.001} if (stage.context["chain"] % 3 == 2 or n % 3 == 1) else {}
                 if style == 1:
-                    raise TransientError("scripted transient", context_update=upd or None) from ConnectionResetError("scripted low-level error")
+                    raise TransientError("scripted transient", context_update=upd or None, **hint) from ConnectionResetError("scripted low-level error")
                 if style == 2:
                     try:
                         raise TimeoutError("scripted low-level timeout")
                     except TimeoutError:
-                        raise TransientError("scripted transient", context_update=upd or None)
-                raise TransientError("scripted transient", context_update=upd or None)
+                        raise TransientError("scripted transient", context_update=upd or None, **hint)
+                raise TransientError("scripted transient", context_update=upd or None, **hint)
             if act[0] == "S":
                 return TaskResult.success(context=upd or None)
             if act[0] == "R":
